@@ -13,7 +13,8 @@ CHECKS = {
         technique="bounded-exhaustive input-shape enumeration (template-driven generator) against an independent reference wire encoder",
         text="All 481 templates x value rows covering every alphabet element of every variable x block-count variants x header variants are "
              "encoded by the real serializer, compared byte-for-byte with an independent struct-based reference encoder (own template parser), "
-             "decoded eagerly and lazily and compared value-by-value (floats bit-exact); default-fill is enumerated per template and variable, and with exactly "
+             "decoded eagerly and lazily and compared value-by-value (floats bit-exact); decoded coordinate objects must not be shared between variables or "
+             "between results (the decoded message is edited in place and the datagram decoded again); default-fill is enumerated per template and variable, and with exactly "
              "one block (first / middle / last) of every repeated block list marked. A second codec built from a different template file through the message_template= constructors must leave the default codec objects intact. "
              "Codec histories: a conformant message (plain and zero-coded) after each of "
              "up to 7 kinds of rejected serialize / deserialize call, and after all of them in a row, on the same long-lived serializer and deserializers. "
@@ -84,7 +85,8 @@ CHECKS = {
              "wrap-form tokens, all decoder inputs over {00,01,02,FF} up to length 8 (quick 7), every reference length around the 0x3000 cap with 13 tail-token "
              "shapes, adversarial expansion families with allocation tracing, every ordered pair of strings up to length 4 (thorough 5) with the first "
              "call's un-copied result held across the second call and fed back in, and the pair as wired into the codec (every value row of 14 basis / all 481 "
-             "templates flagged zerocoded through the real serialize(), plus messages parsed with trailing bytes and serialized again), each checked against an independent plain-Python statement of the format "
+             "templates flagged zerocoded through the real serialize(), plus messages parsed with trailing bytes and serialized again, and zero-coded datagrams carrying extra header bytes with isolated zeros "
+             "through the header peek), each checked against an independent plain-Python statement of the format "
              "(round trip, canonical output, decoder == reference, cap refusal, bounded allocation).",
         note="hmc.refwire zero-code reference trusted (self-checked against six format vectors); between cap and cap+512 the decoder may refuse or return the exact "
              "expansion (it checks per input byte); 'without bound' = tracemalloc peak below 8*cap; header peek covered in C01/C02; no sampled general strings."),
